@@ -61,9 +61,9 @@ func ExecOp(s *Stores, ctx boltz.MutateContext, op Op) (res execResult) {
 			p := op.person()
 			res.err = s.People.Create(ctx, &p)
 		case StStaff:
-			res.err = s.Staff.Create(ctx, &Staff{Person: op.person(), Level: op.Level, BadgeNo: op.BadgeNo})
+			res.err = s.Staff.Create(ctx, &Staff{Person: op.person(), Level: op.Level, BadgeNo: op.BadgeNo, Sponsor: cloneStrP(op.Ref)})
 		case StPX:
-			res.err = s.PX.Create(ctx, &PX{Person: op.person(), Memo: op.Memo})
+			res.err = s.PX.Create(ctx, &PX{Person: op.person(), Memo: op.Memo, Sponsor: cloneStrP(op.Ref)})
 		case StBadges:
 			res.err = s.Badges.Create(ctx, &Badge{Id: op.Id, Owner: strOr(op.Ref), IsSystem: op.IsSys})
 		case StNotes:
@@ -92,9 +92,9 @@ func ExecOp(s *Stores, ctx boltz.MutateContext, op Op) (res execResult) {
 			p := op.person()
 			res.err = s.People.Update(ctx, &p, chk)
 		case StStaff:
-			res.err = s.Staff.Update(ctx, &Staff{Person: op.person(), Level: op.Level, BadgeNo: op.BadgeNo}, chk)
+			res.err = s.Staff.Update(ctx, &Staff{Person: op.person(), Level: op.Level, BadgeNo: op.BadgeNo, Sponsor: cloneStrP(op.Ref)}, chk)
 		case StPX:
-			res.err = s.PX.Update(ctx, &PX{Person: op.person(), Memo: op.Memo}, chk)
+			res.err = s.PX.Update(ctx, &PX{Person: op.person(), Memo: op.Memo, Sponsor: cloneStrP(op.Ref)}, chk)
 		case StBadges:
 			res.err = s.Badges.Update(ctx, &Badge{Id: op.Id, Owner: strOr(op.Ref), IsSystem: op.IsSys}, chk)
 		case StNotes:
@@ -206,6 +206,10 @@ func classAccepted(actual string, acceptable []string) bool {
 // ---------- loading canonical snapshots from the real stores ----------
 
 func snapPersonReal(p *Person, view string, level int32, badgeNo, memo string, staff ...*Staff) string {
+	return snapPersonRealS(p, view, level, badgeNo, memo, nil, staff...)
+}
+
+func snapPersonRealS(p *Person, view string, level int32, badgeNo, memo string, pxSponsor *string, staff ...*Staff) string {
 	roles := append([]string{}, p.Roles...)
 	sort.Strings(roles)
 	groups := append([]string{}, p.Groups...)
@@ -221,9 +225,11 @@ func snapPersonReal(p *Person, view string, level int32, badgeNo, memo string, s
 		s.Level, s.BadgeNo = level, badgeNo
 		if len(staff) == 1 {
 			s.Salary, s.Rate, s.Hired = staff[0].Salary, staff[0].Rate, staff[0].Hired.UnixNano()
+			s.Sponsor = staff[0].Sponsor
 		}
 	case StPX:
 		s.Memo = memo
+		s.Sponsor = pxSponsor
 	}
 	return jsonOf(s)
 }
@@ -250,7 +256,7 @@ func snapEntity(store string, e boltz.Entity) string {
 		if v == nil {
 			return "<nil>"
 		}
-		return snapPersonReal(&v.Person, StPX, 0, "", v.Memo)
+		return snapPersonRealS(&v.Person, StPX, 0, "", v.Memo, v.Sponsor)
 	case *Badge:
 		if v == nil {
 			return "<nil>"
